@@ -334,6 +334,153 @@ Proof.
 Qed.
 End While.
 
+(* ---- the oblivious for loop:  for i in _range(start, regs[stop], max=maxv): regs[ix] = i; body;  _endfor()  (checkstopmax off) ---- *)
+Lemma ne_stop_wp (i : Z) (sx : slc) s sg (Q : pyval -> gst -> store -> Prop) : Inv s sg ->
+  (forall r s' sg', Inv s' sg' -> ext sg sg' -> sc s' r -> ve sg' (sval r) = (if i =? ve sg (sval sx) then 0 else 1) -> Q (PBool 0 r) s' sg') ->
+  wp (Api.pyop (p:=p) c ONe (PInt i) (PLC sx)) s sg Q.
+Proof.
+  intros I HQ. unfold pyop, FUEL. cbn [binop dispatch lc_dunder lc_rdunder bind ret uneg same_class m_check_nonzero NI].
+  repeat apply wp_bind. apply check_zero_wp; [exact F|exact I|]. intros r s' sg' (I' & E' & _) Sr _ V. cbn [ret wp bind].
+  apply HQ; [exact I'|exact E'| |].
+  - apply bnot_sc. unfold MergeValues.sc. unfold slc_scoped in Sr. apply andb_prop in Sr. exact (proj1 Sr).
+  - rewrite bnot_val, V. unfold addc. cbn [sval add neg constv]. esimp.
+    destruct (Z.eqb_spec (ve sg (sval sx) + - i) 0), (Z.eqb_spec i (ve sg (sval sx))); try reflexivity; lia.
+Qed.
+Lemma name_store_int_wp (b0 : bst) (d : nat) (i : Z) s sg (Q : bst -> gst -> store -> Prop) : Inv s sg ->
+  (forall s' sg', Inv s' sg' -> ext sg sg' -> cur_triple s' = cur_triple s -> Q (with_regs b0 (rset (bregs b0) d (PInt i))) s' sg') ->
+  wp (name_store b0 d (PInt i)) s sg Q.
+Proof.
+  intros I HQ. unfold name_store. cbn [name_val lift bind ret]. apply wp_bind. apply wp_lift.
+  apply (OK_emit_out_val ins ig (PInt i) s sg); [exact I|]. intros _ s' sg' (I' & E' & T'). cbn [ret wp]. apply HQ; assumption.
+Qed.
+
+Section For.
+Variables (body : list stmt) (ix : nat) (start : Z) (stop : nat) (maxv : Z) (b : bst) (sx : slc).
+(* after k iterations (index start + k is about to run): registers, variables, accumulated condition, store *)
+Variable J : nat -> regs (p:=p) -> list (nat * slc) -> slc -> store -> Prop.
+(* after the last iteration has been merged *)
+Variable Jend : regs (p:=p) -> list (nat * slc) -> store -> Prop.
+Let n := Z.to_nat (maxv - start - 1).
+Let blk := (fix go (l : list stmt) (b0 : bst) : G1 bst :=
+              match l with [] => ret b0 | s1 :: l' => b1 <- gen_top c s1 b0 ;; go l' b1 end).
+Let ne_stop (i : Z) : G1 pyval := lift (Api.pyop (p:=p) c ONe (PInt i) (PLC sx)).
+Let loop := (fix loop (k : nat) (i : Z) (b0 : bst) : G1 bst :=
+               b1 <- name_store b0 ix (PInt i) ;;
+               b2 <- blk body b1 ;;
+               match k with
+               | O => ret b2
+               | S k' =>
+                   cj <- ne_stop (i + 1) ;;
+                   match bstack b2 with
+                   | cx0 :: rest => r <- ctx_while c cx0 (bvals b2) cj ;;
+                                    loop k' (i + 1) (with_stack (with_vals b2 (snd r)) (fst r :: rest))
+                   | [] => static_raise IndexError
+                   end
+               end).
+Definition HeadF (k : nat) (b0 : bst) (s : gst) (sg : store) : Prop :=
+  exists cx vals o cc sgJ, bstack b0 = cx :: bstack b /\ bvals b0 = lcs vals /\ bbak cx = lcs vals /\ bcond cx = PBool o cc /\
+    (bnodef cx = None \/ bnodef cx = Some []) /\ tvalid ins ig (borig cx) s sg /\ sc s cc /\ sc s sx /\ NoDup (map fst vals) /\
+    J k (bregs b0) vals cc sgJ /\ ext sgJ sg.
+(* one iteration: the index register is set, the body runs under the current guard *)
+Definition StepSpecF : Prop :=
+  forall k b0 cx vals o cc sgJ s1 sg1, (k <= n)%nat -> Inv s1 sg1 -> bstack b0 = cx :: bstack b -> bvals b0 = lcs vals -> bcond cx = PBool o cc ->
+    J k (bregs b0) vals cc sgJ -> ext sgJ sg1 ->
+    wp (gen_stmts c body (with_regs b0 (rset (bregs b0) ix (PInt (start + Z.of_nat k))))) s1 sg1
+      (fun b2 s2 sg2 => Inv s2 sg2 /\ ext sg1 sg2 /\ bstack b2 = bstack b0 /\
+         exists news, bvals b2 = lcs news /\ NoDup (map fst news) /\ Forall (pre (lcs vals) s2 sg2) news /\
+           (* another iteration follows: the invariant for index start + k + 1, under acc * [start + k + 1 <> stop] *)
+           ((k < n)%nat -> forall xs cc' s3 sg3 sgc, Inv s3 sg3 -> ext sg2 sgc -> ext sgc sg3 -> Forall2 (merged (lcs vals) cc sgc s3 sg3) news xs -> sc s3 cc' ->
+              ve sg3 (sval cc') = ve sg2 (sval cc) * (if (start + Z.of_nat k + 1) =? ve sg2 (sval sx) then 0 else 1) -> J (S k) (bregs b2) xs cc' sg3) /\
+           (* the last iteration: its values are merged by _endfor *)
+           (k = n -> forall xs s3 sg3, Inv s3 sg3 -> ext sg2 sg3 -> Forall2 (merged (lcs vals) cc sg2 s3 sg3) news xs -> Jend (bregs b2) xs sg3)).
+
+Lemma loopF_wp (HS : StepSpecF) : forall m k b0 s sg (Q : bst -> gst -> store -> Prop), (k + m = n)%nat -> Inv s sg -> HeadF k b0 s sg ->
+  (forall bl cx vals o cc news s' sg', Inv s' sg' -> ext sg sg' -> bstack bl = cx :: bstack b -> bvals bl = lcs news -> bbak cx = lcs vals -> bcond cx = PBool o cc ->
+     (bnodef cx = None \/ bnodef cx = Some []) -> tvalid ins ig (borig cx) s' sg' -> sc s' cc -> NoDup (map fst news) -> Forall (pre (lcs vals) s' sg') news ->
+     (forall xs s3 sg3, Inv s3 sg3 -> ext sg' sg3 -> Forall2 (merged (lcs vals) cc sg' s3 sg3) news xs -> Jend (bregs bl) xs sg3) -> Q bl s' sg') ->
+  wp (loop m (start + Z.of_nat k) b0) s sg Q.
+Proof.
+  induction m as [|m IH]; intros k b0 s sg Q Hk I H HQ;
+    destruct H as (cx & vals & o & cc & sgJ & Hs & Hv & Hb & Hc & Hn & T & Scc & Ssx & Hd & HJ & EJ).
+  - assert (Ek : k = n) by lia.
+    change (loop 0%nat (start + Z.of_nat k) b0) with (b1 <- name_store b0 ix (PInt (start + Z.of_nat k)) ;; b2 <- blk body b1 ;; ret b2).
+    apply wp_bind. apply name_store_int_wp; [exact I|]. intros s1 sg1 I1 E1 _. apply wp_bind. apply wp_blk.
+    assert (Hle : (k <= n)%nat) by lia. assert (EJ1 : ext sgJ sg1) by (eapply ext_trans; eauto).
+    eapply wp_mono; [|exact (HS k b0 cx vals o cc sgJ s1 sg1 Hle I1 Hs Hv Hc HJ EJ1)].
+    intros b2 s2 sg2 (I2 & E2 & Hs2 & news & Hv2 & Hd2 & Hp2 & _ & Hlast). cbn [ret wp].
+    assert (C0 : cnt s sg) by exact (proj1 I). assert (C2 : cnt s2 sg2) by exact (proj1 I2). assert (E02 : ext sg sg2) by (eapply ext_trans; eauto).
+    apply (HQ b2 cx vals o cc news s2 sg2); try assumption.
+    + rewrite Hs2. exact Hs.
+    + exact (tvalid_mono ins ig _ _ _ _ _ T C0 C2 E02).
+    + exact (MergeValues.sc_mono s s2 sg sg2 cc C0 C2 E02 Scc).
+    + exact (Hlast Ek).
+  - change (loop (S m) (start + Z.of_nat k) b0) with
+      (b1 <- name_store b0 ix (PInt (start + Z.of_nat k)) ;; b2 <- blk body b1 ;;
+       cj <- ne_stop (start + Z.of_nat k + 1) ;;
+       match bstack b2 with
+       | cx0 :: rest => r <- ctx_while c cx0 (bvals b2) cj ;; loop m (start + Z.of_nat k + 1) (with_stack (with_vals b2 (snd r)) (fst r :: rest))
+       | [] => static_raise IndexError end).
+    apply wp_bind. apply name_store_int_wp; [exact I|]. intros s1 sg1 I1 E1 _. apply wp_bind. apply wp_blk.
+    assert (Hle : (k <= n)%nat) by lia. assert (Hlt : (k < n)%nat) by lia. assert (EJ1 : ext sgJ sg1) by (eapply ext_trans; eauto).
+    eapply wp_mono; [|exact (HS k b0 cx vals o cc sgJ s1 sg1 Hle I1 Hs Hv Hc HJ EJ1)].
+    intros b2 s2 sg2 (I2 & E2 & Hs2 & news & Hv2 & Hd2 & Hp2 & Hnext & _).
+    assert (C0 : cnt s sg) by exact (proj1 I). assert (C2 : cnt s2 sg2) by exact (proj1 I2). assert (E02 : ext sg sg2) by (eapply ext_trans; eauto).
+    assert (Ssx2 : sc s2 sx) by exact (MergeValues.sc_mono s s2 sg sg2 sx C0 C2 E02 Ssx).
+    assert (Scc2 : sc s2 cc) by exact (MergeValues.sc_mono s s2 sg sg2 cc C0 C2 E02 Scc).
+    apply wp_bind. unfold ne_stop. apply wp_lift. apply ne_stop_wp; [exact I2|]. intros nw s3 sg3 I3 E3 Snw Vnw.
+    rewrite Hs2, Hs. apply wp_bind. rewrite Hv2.
+    assert (C3 : cnt s3 sg3) by exact (proj1 I3). assert (E03 : ext sg sg3) by (eapply ext_trans; eauto).
+    apply (ctx_while_shape cx o cc news 0 nw s3 sg3); try assumption.
+    + exact (tvalid_mono ins ig _ _ _ _ _ T C0 C3 E03).
+    + exact (MergeValues.sc_mono s2 s3 sg2 sg3 cc C2 C3 E3 Scc2).
+    + rewrite Hb. eapply Forall_impl; [|exact Hp2]. intros nt (St & f & Hf & Sf & Hid). split; [exact (MergeValues.sc_mono s2 s3 sg2 sg3 _ C2 C3 E3 St)|].
+      exists f. split; [exact Hf|]. split; [exact (MergeValues.sc_mono s2 s3 sg2 sg3 _ C2 C3 E3 Sf)|]. intros Es.
+      rewrite (ve_ext ins ig _ _ _ _ C2 E3 St), (ve_ext ins ig _ _ _ _ C2 E3 Sf). exact (Hid Es).
+    + intros xs cc' orig s4 sg4 I4 E4 T4 Hm Scc' Vcc'. cbn [fst snd].
+      assert (Names : map fst xs = map fst news).
+      { clear - Hm. induction Hm as [|nt nx news xs [A _] _ IHm]; [reflexivity|]. cbn [map]. rewrite A, IHm. reflexivity. }
+      replace (start + Z.of_nat k + 1) with (start + Z.of_nat (S k)) by lia.
+      apply (IH (S k)); [lia|exact I4| |].
+      * exists {| bk := KWhile; bcond := PBool 0 cc'; bbak := lcs xs; borig := orig; bnodef := Some []; bicond := None |}, xs, 0, cc', sg4.
+        cbn [bstack bvals bregs with_stack with_vals bbak bcond bnodef borig].
+        split; [reflexivity|]. split; [reflexivity|]. split; [reflexivity|]. split; [reflexivity|]. split; [right; reflexivity|].
+        split; [exact T4|]. split; [exact Scc'|]. split; [exact (MergeValues.sc_mono s3 s4 sg3 sg4 sx C3 (proj1 I4) E4 (MergeValues.sc_mono s2 s3 sg2 sg3 sx C2 C3 E3 Ssx2))|].
+        split; [rewrite Names; exact Hd2|]. split; [|apply ext_refl].
+        rewrite Hb in Hm. apply (Hnext Hlt xs cc' s4 sg4 sg3 I4 E3 E4 Hm Scc').
+        rewrite Vcc'. rewrite (ve_ext ins ig _ _ _ _ C2 E3 Scc2), Vnw. replace (start + Z.of_nat (S k)) with (start + Z.of_nat k + 1) by lia. reflexivity.
+      * intros bl cx' vals' o'' cc'' news' s' sg' I' E' A1 A2 A3 A4 A5 A6 A7 A8 A9 A10. apply (HQ bl cx' vals' o'' cc'' news' s' sg'); try assumption.
+        eapply ext_trans; [exact E1|]. eapply ext_trans; [exact E2|]. eapply ext_trans; [exact E3|]. eapply ext_trans; eauto.
+Qed.
+
+Theorem ofor_rule (HS : StepSpecF) (vals0 : list (nat * slc)) s sg (Q : bst -> gst -> store -> Prop) :
+  Inv s sg -> rget (bregs b) stop = PLC sx -> sc s sx -> bvals b = lcs vals0 -> NoDup (map fst vals0) ->
+  (* the invariant before the first iteration, under the condition [start <> stop] *)
+  (forall cc s1 sg1, Inv s1 sg1 -> ext sg sg1 -> sc s1 cc -> ve sg1 (sval cc) = (if start =? ve sg (sval sx) then 0 else 1) -> J 0%nat (bregs b) vals0 cc sg1) ->
+  (forall b4 s4 sg4 xs, Inv s4 sg4 -> ext sg sg4 -> Jend (bregs b4) xs sg4 -> bstack b4 = bstack b -> bvals b4 = lcs xs -> Q b4 s4 sg4) ->
+  wp (gen_top c (SOFor ix start stop maxv false body) b) s sg Q.
+Proof.
+  intros I Hst Ssx Hv Hd H0 HQ. cbn [gen_top]. rewrite Hst. apply wp_bind. apply wp_lift. apply ne_stop_wp; [exact I|].
+  intros c0 s1 sg1 I1 E1 Sc0 Vc0. apply wp_bind. unfold ctx_enter. apply wp_bind.
+  apply (add_guard_v_TOK ins ig c (PBool 0 c0) s1 sg1 I1). intros orig s2 sg2 I2 E2 T2. cbn [ret wp].
+  rewrite Hv, deepcopy_lcs. apply wp_bind.
+  assert (C0 : cnt s sg) by exact (proj1 I). assert (C1 : cnt s1 sg1) by exact (proj1 I1). assert (C2 : cnt s2 sg2) by exact (proj1 I2).
+  assert (E02 : ext sg sg2) by (eapply ext_trans; eauto).
+  match goal with |- wp (_ _ _ ?B0) s2 sg2 ?K => pose proof (loopF_wp HS n 0%nat B0 s2 sg2 K) as W end.
+  cbn [Z.of_nat] in W. rewrite Z.add_0_r in W. apply W; [lia|exact I2| |]; clear W.
+  - exists {| bk := KWhile; bcond := PBool 0 c0; bbak := lcs vals0; borig := orig; bnodef := None; bicond := None |}, vals0, 0, c0, sg1.
+    cbn [bstack bvals bregs with_stack bbak bcond bnodef borig].
+    split; [reflexivity|]. split; [exact Hv|]. split; [reflexivity|]. split; [reflexivity|]. split; [left; reflexivity|]. split; [exact T2|].
+    split; [exact (MergeValues.sc_mono s1 s2 sg1 sg2 c0 C1 C2 E2 Sc0)|]. split; [exact (MergeValues.sc_mono s s2 sg sg2 sx C0 C2 E02 Ssx)|]. split; [exact Hd|].
+    split; [exact (H0 c0 s1 sg1 I1 E1 Sc0 Vc0)|exact E2].
+  - intros bl cx vals o cc news s3 sg3 I3 E3 Hs Hvl Hb Hc Hn T Scc Hdl Hp Hend. cbn [bind ret]. rewrite Hs. apply wp_bind. rewrite Hvl.
+    apply (ctx_exit_shape cx o cc news s3 sg3); try assumption; [rewrite Hb; exact Hp|].
+    intros xs s4 sg4 I4 E4 Hm. cbn [ret wp fst].
+    apply (HQ _ s4 sg4 xs); [exact I4| | |reflexivity|reflexivity].
+    + eapply ext_trans; [exact E02|]. eapply ext_trans; eauto.
+    + rewrite Hb in Hm. exact (Hend xs s4 sg4 I4 E4 Hm).
+Qed.
+End For.
+
 (* ---- if / else ---- *)
 
 Theorem oifelse_rule (cn : nat) (thenb elseb : list stmt) (b : bst) o cb (olds : list (nat * slc)) s sg
